@@ -32,6 +32,7 @@ SeqN(S, n) == CASE n = 1 -> {<<a>> : a \in S}
                 [] n = 2 -> {<<a, b>> : a \in S, b \in S}
                 [] n = 3 -> {<<a, b, c>> : a \in S, b \in S, c \in S}
                 [] n = 4 -> {<<a, b, c, e>> : a \in S, b \in S, c \in S, e \in S}
+SeqN5(S, n) == IF n = 5 THEN {<<a, b, c, e, g>> : a \in S, b \in S, c \in S, e \in S, g \in S} ELSE SeqN(S, n)
 SeqsUpTo(S, n) == UNION {SeqN(S, k) : k \in 1..n}
 
 \* ---- family A: interleavings of block shapes ------------------------------
@@ -116,6 +117,19 @@ SheetO(f, dcs, locs, s, other, chain) ==
     [i \in 1..Len(dcs) |-> StL(dcs[i], LvlO(i, dcs[i]), IF chain = 1 /\ i = s THEN other ELSE -1, locs[i])]
 LocSeqs(f, n) == IF f = "docx" THEN {[i \in 1..n |-> "doc"]} ELSE SeqN({"doc", "auto"}, n)
 
+\* ---- family W: block-level wrappers and markers ------------------------------
+\* every properly nested arrangement of up to mb blocks over paragraphs, tables, wrapper
+\* brackets and markers: wrappers holding 0..2 paragraphs and / or a table, nested, placed
+\* before / between / after ordinary paragraphs and tables
+Br(k, how) == [k |-> k, ch |-> <<>>, lvl |-> 0, how |-> how, num |-> "", sty |-> 0, tb |-> NoTbl]
+TH(how) == [T(1, 1, <<>>, <<>>, <<>>) EXCEPT !.how = how]
+\* (mb <= 5: the quick alphabet, one wrapper and one marker kind; mb > 5 is the full one)
+ShapesW(f, full) ==
+    {Plain, T(1, 1, <<>>, <<>>, <<>>), Br("WC", "")}
+    \cup (IF full THEN {Br("WO", w) : w \in WrapKinds(f)} \cup {Br("M", m) : m \in MarkKinds(f)}
+                       \cup {TH(IF f = "docx" THEN "cellsdt" ELSE "cellsec"), H(2, "outline")}
+          ELSE {Br("WO", IF f = "docx" THEN "sdt" ELSE "section"), Br("M", IF f = "docx" THEN "bookmark" ELSE "softbreak")})
+
 \* ---- family L: list trees ---------------------------------------------------
 LIh(l, num, how) == [k |-> "LI", ch |-> <<R("r", <<"t">>)>>, lvl |-> l, how |-> how, num |-> num, sty |-> 0, tb |-> NoTbl]
 ShapesL(f) == {LIh(l, "bullet", "") : l \in 0..3}
@@ -145,6 +159,10 @@ FamInit(fm, mb) ==
                              /\ doc = [fmt |-> f, hdr |-> 0, ftr |-> 0, sheet |-> sh,
                                        body |-> IF mixed = 1 THEN <<StyH(other, 2, ""), StyH(s, 5, how), Plain>>
                                                 ELSE <<StyH(s, 5, how), Plain>>]
+         [] fm = "W" -> \E f \in Fmts : \E n \in 1..(IF mb > 5 THEN mb - 2 ELSE mb) : \E b \in SeqN5(ShapesW(f, mb > 5), n) :
+                           /\ IsDoc(D(f, b, 0, 0))
+                           /\ \E i \in 1..n : b[i].k \in Brackets      \* (wrapper-free bodies are family A's)
+                           /\ doc = D(f, b, 0, 0)
          [] fm = "S" -> \E f \in Fmts : \E n \in 1..mb : \E dcs \in SeqN(SheetDecls(f), n) :
                            \E last \in {-2, -1, 0} \cup (1..n) :
                              /\ SheetOK(f, ChainSheet(f, dcs, last))
@@ -157,7 +175,7 @@ MCInit ==
     /\ pos = 0 /\ out = <<>>
     /\ IF Fam = "Q"
        THEN \/ FamInit("A", 3) \/ FamInit("B", 0) \/ FamInit("C", 0) \/ FamInit("D", 0)
-            \/ FamInit("S", 4) \/ FamInit("L", 3) \/ FamInit("O", 3)
+            \/ FamInit("S", 4) \/ FamInit("L", 3) \/ FamInit("O", 3) \/ FamInit("W", 5)
        ELSE FamInit(Fam, MaxBlocks)
 
 \* ---- case emission ---------------------------------------------------------
